@@ -98,13 +98,16 @@ where
         buffer: &mut DumpBuf,
         dirent: Option<MDRawDirectory>,
     ) -> std::result::Result<(), FileWriterError> {
-        if let Some(dirent) = dirent {
-            self.dump_dir_entry(buffer, dirent)?;
-        }
-
+        // First append the new stream data, only then publish the directory entry
+        // that refers to it: if we die in between, the file is still a valid
+        // (truncated) minidump whose directory only names complete streams.
         let start_pos = self.last_position_written_to_file as usize;
         self.destination.write_all(&buffer[start_pos..])?;
         self.last_position_written_to_file = buffer.position();
+
+        if let Some(dirent) = dirent {
+            self.dump_dir_entry(buffer, dirent)?;
+        }
         Ok(())
     }
 }
